@@ -27,6 +27,12 @@ func replayOpenAPI(eng *Engine) string {
 	return runKitReplay(eng, replayOpenAPISrc, "zz_govc_openapi_test.go", "TestGovcOpenAPIReplay", "OpenAPI export of documents on the real code (package kit):")
 }
 
+//go:embed replay_gen_test.go.tmpl
+var replayGenSrc string
+
+// genFor: the document generator as a file of the given package
+func genFor(pkg string) string { return strings.ReplaceAll(replayGenSrc, "@PKG@", pkg) }
+
 //go:embed replay_tree_test.go.tmpl
 var replayTreeSrc string
 
@@ -49,8 +55,8 @@ func (e *Engine) treeChecks(id string) []fdResult {
 	var res []fdResult
 	for _, o := range list {
 		os.Setenv("GOVC_ORACLE", o.oracle)
-		out := runPkgReplayFiles(e, "core", map[string]string{"zz_govc_tree_test.go": replayTreeSrc}, "TestGovcTreeOracle", "tree oracle "+o.oracle+" on the real builder (package core):")
-		res = append(res, fdResult{Name: o.name, Props: []string{id}, Goal: "BOUNDED (5 built-in documents and the accepted documents of /repo/testdata without INCLUDE/MACRO, directive boundaries from the scanned tree): " + o.goal + " (bounded sample, not a proof)",
+		out := runPkgReplayFiles(e, "core", map[string]string{"zz_govc_tree_test.go": replayTreeSrc, "zz_govc_gen_test.go": genFor("core")}, "TestGovcTreeOracle", "tree oracle "+o.oracle+" on the real builder (package core):")
+		res = append(res, fdResult{Name: o.name, Props: []string{id}, Goal: "BOUNDED (5 built-in documents, 40-120 generated documents and the accepted documents of /repo/testdata without INCLUDE/MACRO, directive boundaries from the scanned tree): " + o.goal + " (bounded sample, not a proof)",
 			OK: strings.Contains(out, "DONE tried=") && !strings.Contains(out, "REPRODUCED input"), Detail: out})
 	}
 	return res
@@ -136,7 +142,7 @@ func (e *Engine) corpusChecks(id, tier string) []fdResult {
 		os.Setenv("GOVC_DEEP", "1")
 	}
 	out := runKitReplay(e, replayCorpusSrc, "zz_govc_corpus_test.go", "TestGovcCorpusOracle", "corpus oracle "+id+" on the real builder (package kit):")
-	res := []fdResult{{Name: g[0], Props: []string{id}, Goal: "BOUNDED (built-in documents and /repo/testdata): " + g[1] + " (bounded sample, not a proof)",
+	res := []fdResult{{Name: g[0], Props: []string{id}, Goal: "BOUNDED (built-in documents, 400 generated documents and /repo/testdata): " + g[1] + " (bounded sample, not a proof)",
 		OK: strings.Contains(out, "DONE tried=") && !strings.Contains(out, "REPRODUCED input"), Detail: out}}
 	if id == "C14" {
 		// cycles through the root file are a recorded class (known finding D29): an obligation of its own
@@ -326,7 +332,9 @@ func runKitReplay(eng *Engine, src, file, test, title string) string {
 	defer os.RemoveAll(tmp)
 	testFile := filepath.Join(tmp, file)
 	_ = os.WriteFile(testFile, []byte(src), 0o644)
-	ov := map[string]map[string]string{"Replace": {filepath.Join(eng.repo, "kit", file): testFile}}
+	genFile := filepath.Join(tmp, "zz_govc_gen_test.go")
+	_ = os.WriteFile(genFile, []byte(genFor("kit")), 0o644)
+	ov := map[string]map[string]string{"Replace": {filepath.Join(eng.repo, "kit", file): testFile, filepath.Join(eng.repo, "kit", "zz_govc_gen_test.go"): genFile}}
 	ovb, _ := json.Marshal(ov)
 	ovFile := filepath.Join(tmp, "overlay.json")
 	_ = os.WriteFile(ovFile, ovb, 0o644)
@@ -357,7 +365,9 @@ func replayRepeat(eng *Engine) string {
 	defer os.RemoveAll(tmp)
 	testFile := filepath.Join(tmp, "zz_govc_repeat_test.go")
 	_ = os.WriteFile(testFile, []byte(replayRepeatSrc), 0o644)
-	ov := map[string]map[string]string{"Replace": {filepath.Join(eng.repo, "kit", "zz_govc_repeat_test.go"): testFile}}
+	genFile := filepath.Join(tmp, "zz_govc_gen_test.go")
+	_ = os.WriteFile(genFile, []byte(genFor("kit")), 0o644)
+	ov := map[string]map[string]string{"Replace": {filepath.Join(eng.repo, "kit", "zz_govc_repeat_test.go"): testFile, filepath.Join(eng.repo, "kit", "zz_govc_gen_test.go"): genFile}}
 	ovb, _ := json.Marshal(ov)
 	ovFile := filepath.Join(tmp, "overlay.json")
 	_ = os.WriteFile(ovFile, ovb, 0o644)
